@@ -55,7 +55,7 @@ def t_rename(lines, fn):
     cnt = 0
     for i in range(fn["line"] - 1, min(fn["endline"], len(lines))):
         l = lines[i]
-        if l.lstrip().startswith("#"):
+        if l.lstrip().startswith("#") and "pragma" not in l:
             continue
         # leave string literals and comments alone (roughly): split on quotes
         parts = re.split(r'("(?:[^"\\]|\\.)*")', l)
